@@ -59,8 +59,16 @@ try:
     log["check"] = verdicts
 finally:
     shutil.rmtree(d, ignore_errors=True)
+# demo.cb directly on both builds (demo.sh scripts differ in where they expect ./main)
+try:
+    p = subprocess.run(["python3", os.path.join(V, "harness", "demo_seed.py"), name], capture_output=True, text=True, timeout=1500)
+    log["demo_cb_differs"] = p.stdout.strip().endswith("DIFFERS")
+    log["demo_cb_outputs"] = p.stdout[-3000:]
+except Exception as e:
+    log["demo_cb_differs"] = None
+    log["demo_cb_outputs"] = str(e)
 meta["confirmed_by_coordinator"] = log
 meta["what_i_ran"] = "harness/eval_seed.py: git apply --check on HEAD; make -j8 all && make test in the agent's worktree; demo on HEAD build vs changed build; CB_REPO=<copy+patch> ./check %s" % prop
 json.dump(meta, open(os.path.join(dest, "meta.json"), "w"), indent=1)
-print(json.dumps({k: log[k] for k in ("applies_to_head", "suite_passed", "demo_differs", "check")}, indent=1))
+print(json.dumps({k: log[k] for k in ("applies_to_head", "suite_passed", "demo_differs", "demo_cb_differs", "check")}, indent=1))
 subprocess.run(["git", "-C", "/repo", "worktree", "remove", "--force", wt])
